@@ -5,6 +5,7 @@ mod body;
 mod c13;
 mod radix;
 mod router;
+mod tok;
 mod util;
 
 fn main() {
@@ -22,6 +23,7 @@ fn main() {
         "radix_rx" => util::run_cases(inp, outp, radix::run_rx),
         "router" => util::run_cases(inp, outp, router::run),
         "body" => util::run_cases(inp, outp, body::run),
+        "tok" => util::run_cases(inp, outp, tok::run),
         "act" => util::run_cases(inp, outp, act::run),
         other => {
             eprintln!("harness: unknown driver {}", other);
